@@ -60,6 +60,10 @@ class PatchList:
         out = "boundary\n(\n"
 
         for _, patch in self.patches.items():
+            if len(patch.sides) == 0 and patch.kind == "patch" and len(patch.settings) == 0:
+                # left over from a block that has been deleted since; nothing to declare
+                continue
+
             out += patch.description
 
         out += ");\n\n"
